@@ -10,10 +10,19 @@ fn times() -> Vec<(&'static str, SystemTime)> {
         ("epoch", UNIX_EPOCH),
         ("epoch+1ns", UNIX_EPOCH + Duration::from_nanos(1)),
         ("epoch+1.5s", UNIX_EPOCH + Duration::from_millis(1500)),
-        ("2001-09-09T01:46:40.123456789", UNIX_EPOCH + Duration::new(1_000_000_000, 123_456_789)),
-        ("year-2100", UNIX_EPOCH + Duration::new(4_102_444_800, 999_999_999)),
+        (
+            "2001-09-09T01:46:40.123456789",
+            UNIX_EPOCH + Duration::new(1_000_000_000, 123_456_789),
+        ),
+        (
+            "year-2100",
+            UNIX_EPOCH + Duration::new(4_102_444_800, 999_999_999),
+        ),
         ("1969-12-20", UNIX_EPOCH - Duration::new(1_000_000, 0)),
-        ("year-1901", UNIX_EPOCH - Duration::new(2_177_452_800, 500_000_000)),
+        (
+            "year-1901",
+            UNIX_EPOCH - Duration::new(2_177_452_800, 500_000_000),
+        ),
         ("year-2262", UNIX_EPOCH + Duration::new(9_214_646_400, 1)),
     ]
 }
@@ -74,21 +83,105 @@ pub fn run_c19(ctx: &Ctx) -> i32 {
     let info = ctx.info("C19", "model_checking");
     let ov = Cfg::Ov(vec![Cfg::Mem, Cfg::Mem]);
     let mut cases = vec![
-        Case { cfg: Cfg::Mem, label: "Mem", base: 0, also: &[], supports: all_supported, mem_based: true },
-        Case { cfg: Cfg::Phys, label: "Phys", base: 0, also: &[], supports: phys_supported, mem_based: false },
-        Case { cfg: Cfg::alt(Cfg::Mem, "/Z"), label: "Alt(Mem,/Z)", base: 0, also: &[], supports: all_supported, mem_based: true },
-        Case { cfg: Cfg::alt(Cfg::Phys, "/Z"), label: "Alt(Phys,/Z)", base: 0, also: &[], supports: phys_supported, mem_based: false },
-        Case { cfg: ov.clone(), label: "Ov[Mem,Mem]/upper", base: 0, also: &[], supports: all_supported, mem_based: true },
-        Case { cfg: ov.clone(), label: "Ov[Mem,Mem]/lower-only", base: 1, also: &[], supports: all_supported, mem_based: false },
+        Case {
+            cfg: Cfg::Mem,
+            label: "Mem",
+            base: 0,
+            also: &[],
+            supports: all_supported,
+            mem_based: true,
+        },
+        Case {
+            cfg: Cfg::Phys,
+            label: "Phys",
+            base: 0,
+            also: &[],
+            supports: phys_supported,
+            mem_based: false,
+        },
+        Case {
+            cfg: Cfg::alt(Cfg::Mem, "/Z"),
+            label: "Alt(Mem,/Z)",
+            base: 0,
+            also: &[],
+            supports: all_supported,
+            mem_based: true,
+        },
+        Case {
+            cfg: Cfg::alt(Cfg::Phys, "/Z"),
+            label: "Alt(Phys,/Z)",
+            base: 0,
+            also: &[],
+            supports: phys_supported,
+            mem_based: false,
+        },
+        Case {
+            cfg: ov.clone(),
+            label: "Ov[Mem,Mem]/upper",
+            base: 0,
+            also: &[],
+            supports: all_supported,
+            mem_based: true,
+        },
+        Case {
+            cfg: ov.clone(),
+            label: "Ov[Mem,Mem]/lower-only",
+            base: 1,
+            also: &[],
+            supports: all_supported,
+            mem_based: false,
+        },
     ];
     // the entry exists in the upper layer AND in a lower layer (the upper one is served)
-    cases.push(Case { cfg: ov.clone(), label: "Ov[Mem,Mem]/upper+lower", base: 0, also: &[1], supports: all_supported, mem_based: true });
-    cases.push(Case { cfg: Cfg::Ov(vec![Cfg::Mem, Cfg::Mem, Cfg::Mem]), label: "Ov[Mem,Mem,Mem]/upper+lowest", base: 0, also: &[2], supports: all_supported, mem_based: true });
+    cases.push(Case {
+        cfg: ov.clone(),
+        label: "Ov[Mem,Mem]/upper+lower",
+        base: 0,
+        also: &[1],
+        supports: all_supported,
+        mem_based: true,
+    });
+    cases.push(Case {
+        cfg: Cfg::Ov(vec![Cfg::Mem, Cfg::Mem, Cfg::Mem]),
+        label: "Ov[Mem,Mem,Mem]/upper+lowest",
+        base: 0,
+        also: &[2],
+        supports: all_supported,
+        mem_based: true,
+    });
     if ctx.tier == Tier::Thorough {
-        cases.push(Case { cfg: Cfg::Ov(vec![Cfg::Phys, Cfg::Phys]), label: "Ov[Phys,Phys]/upper+lower", base: 0, also: &[1], supports: phys_supported, mem_based: false });
-        cases.push(Case { cfg: Cfg::Ov(vec![Cfg::Phys, Cfg::Phys]), label: "Ov[Phys,Phys]/upper", base: 0, also: &[], supports: phys_supported, mem_based: false });
-        cases.push(Case { cfg: Cfg::Ov(vec![Cfg::Mem, Cfg::Mem, Cfg::Mem]), label: "Ov[Mem,Mem,Mem]/lowest-only", base: 2, also: &[], supports: all_supported, mem_based: false });
-        cases.push(Case { cfg: Cfg::alt(ov.clone(), "/Z"), label: "Alt(Ov[Mem,Mem],/Z)/upper", base: 0, also: &[], supports: all_supported, mem_based: true });
+        cases.push(Case {
+            cfg: Cfg::Ov(vec![Cfg::Phys, Cfg::Phys]),
+            label: "Ov[Phys,Phys]/upper+lower",
+            base: 0,
+            also: &[1],
+            supports: phys_supported,
+            mem_based: false,
+        });
+        cases.push(Case {
+            cfg: Cfg::Ov(vec![Cfg::Phys, Cfg::Phys]),
+            label: "Ov[Phys,Phys]/upper",
+            base: 0,
+            also: &[],
+            supports: phys_supported,
+            mem_based: false,
+        });
+        cases.push(Case {
+            cfg: Cfg::Ov(vec![Cfg::Mem, Cfg::Mem, Cfg::Mem]),
+            label: "Ov[Mem,Mem,Mem]/lowest-only",
+            base: 2,
+            also: &[],
+            supports: all_supported,
+            mem_based: false,
+        });
+        cases.push(Case {
+            cfg: Cfg::alt(ov.clone(), "/Z"),
+            label: "Alt(Ov[Mem,Mem],/Z)/upper",
+            base: 0,
+            also: &[],
+            supports: all_supported,
+            mem_based: true,
+        });
     }
     let ts = times();
     // setter sequences: every single setter, and all 6 orders of the three setters
@@ -110,13 +203,25 @@ pub fn run_c19(ctx: &Ctx) -> i32 {
         for is_dir in [false, true] {
             for (ti, _) in ts.iter().enumerate() {
                 for seq in &seqs {
-                    for follow in [Follow::Nothing, Follow::Append, Follow::Overwrite, Follow::CopyToSibling, Follow::Read, Follow::AppendHandleOpenAcrossSetters] {
+                    for follow in [
+                        Follow::Nothing,
+                        Follow::Append,
+                        Follow::Overwrite,
+                        Follow::CopyToSibling,
+                        Follow::Read,
+                        Follow::AppendHandleOpenAcrossSetters,
+                    ] {
                         if is_dir && follow != Follow::Nothing {
                             continue;
                         }
                         runs += 1;
-                        let node = if is_dir { Node::Dir } else { Node::File(b"abc".to_vec()) };
-                        let mut init: Init = vec![(case.base, vec![("/t".to_string(), node.clone())])];
+                        let node = if is_dir {
+                            Node::Dir
+                        } else {
+                            Node::File(b"abc".to_vec())
+                        };
+                        let mut init: Init =
+                            vec![(case.base, vec![("/t".to_string(), node.clone())])];
                         for extra in case.also {
                             init.push((*extra, vec![("/t".to_string(), node.clone())]));
                         }
@@ -126,11 +231,22 @@ pub fn run_c19(ctx: &Ctx) -> i32 {
                         let mk = |tail: String, what: String| Violation {
                             property: "C19".into(),
                             signature: format!("{}|{}|{}", case.label, kind, tail),
-                            summary: format!("{} ({}), setters {:?}, then {:?}: {}", case.label, kind, seq.iter().map(|f| fname(*f)).collect::<Vec<_>>(), follow, what),
+                            summary: format!(
+                                "{} ({}), setters {:?}, then {:?}: {}",
+                                case.label,
+                                kind,
+                                seq.iter().map(|f| fname(*f)).collect::<Vec<_>>(),
+                                follow,
+                                what
+                            ),
                             replay: json!({"engine": "time", "case": case.label, "kind": kind, "setters": seq.iter().map(|f| fname(*f)).collect::<Vec<_>>(), "first_value": ts[ti].0, "follow_up": format!("{:?}", follow)}),
                         };
                         let mut set_values: BTreeMap<&'static str, SystemTime> = BTreeMap::new();
-                        let mut open_handle = if follow == Follow::AppendHandleOpenAcrossSetters { p.append_file().ok() } else { None };
+                        let mut open_handle = if follow == Follow::AppendHandleOpenAcrossSetters {
+                            p.append_file().ok()
+                        } else {
+                            None
+                        };
                         for (k, f) in seq.iter().enumerate() {
                             let (tname, tv) = ts[(ti + k) % ts.len()];
                             let before = match PathApi::metadata(&p) {
@@ -143,37 +259,95 @@ pub fn run_c19(ctx: &Ctx) -> i32 {
                             let r = guard(|| p.set_time(*f, tv));
                             setter_calls += 1;
                             let after = PathApi::metadata(&p);
-                            *classes.entry(format!("{}:{}:{}:{}", case.label, kind, fname(*f), match &r { Ok(Ok(())) => "Ok".to_string(), Ok(Err(e)) => format!("Err({})", e.kind.name()), Err(_) => "Panic".into() })).or_insert(0) += 1;
+                            *classes
+                                .entry(format!(
+                                    "{}:{}:{}:{}",
+                                    case.label,
+                                    kind,
+                                    fname(*f),
+                                    match &r {
+                                        Ok(Ok(())) => "Ok".to_string(),
+                                        Ok(Err(e)) => format!("Err({})", e.kind.name()),
+                                        Err(_) => "Panic".into(),
+                                    }
+                                ))
+                                .or_insert(0) += 1;
                             let after = match after {
                                 Ok(m) => m,
                                 Err(e) => {
-                                    vio.push(mk(format!("set_{}|metadata-after-failed", fname(*f)), e.display));
+                                    vio.push(mk(
+                                        format!("set_{}|metadata-after-failed", fname(*f)),
+                                        e.display,
+                                    ));
                                     break;
                                 }
                             };
                             match r {
-                                Err(m) => vio.push(mk(format!("set_{}|panic", fname(*f)), format!("panicked: {}", m))),
+                                Err(m) => vio.push(mk(
+                                    format!("set_{}|panic", fname(*f)),
+                                    format!("panicked: {}", m),
+                                )),
                                 Ok(Ok(())) => {
                                     if get(&after, *f) != Some(tv) {
-                                        vio.push(mk(format!("set_{}|value-not-reported|{}", fname(*f), tname), format!("set {} to {} ({:?}) but metadata reports {:?}", fname(*f), tname, tv, get(&after, *f))));
+                                        vio.push(mk(
+                                            format!(
+                                                "set_{}|value-not-reported|{}",
+                                                fname(*f),
+                                                tname
+                                            ),
+                                            format!(
+                                                "set {} to {} ({:?}) but metadata reports {:?}",
+                                                fname(*f),
+                                                tname,
+                                                tv,
+                                                get(&after, *f)
+                                            ),
+                                        ));
                                     }
                                     for g in FIELDS {
                                         if g != *f && get(&after, g) != get(&before, g) {
-                                            vio.push(mk(format!("set_{}|changed-{}", fname(*f), fname(g)), format!("setting {} changed {} from {:?} to {:?}", fname(*f), fname(g), get(&before, g), get(&after, g))));
+                                            vio.push(mk(
+                                                format!("set_{}|changed-{}", fname(*f), fname(g)),
+                                                format!(
+                                                    "setting {} changed {} from {:?} to {:?}",
+                                                    fname(*f),
+                                                    fname(g),
+                                                    get(&before, g),
+                                                    get(&after, g)
+                                                ),
+                                            ));
                                         }
                                     }
                                     if after.len != before.len || after.ftype != before.ftype {
-                                        vio.push(mk(format!("set_{}|changed-len-or-type", fname(*f)), format!("len/type {:?}/{} -> {:?}/{}", before.ftype, before.len, after.ftype, after.len)));
+                                        vio.push(mk(
+                                            format!("set_{}|changed-len-or-type", fname(*f)),
+                                            format!(
+                                                "len/type {:?}/{} -> {:?}/{}",
+                                                before.ftype, before.len, after.ftype, after.len
+                                            ),
+                                        ));
                                     }
                                     set_values.insert(fname(*f), tv);
                                 }
                                 Ok(Err(e)) => {
                                     if after != before {
-                                        vio.push(mk(format!("set_{}|failed-but-changed", fname(*f)), format!("failed with {} but metadata changed: {:?} -> {:?}", e.display, before, after)));
+                                        vio.push(mk(
+                                            format!("set_{}|failed-but-changed", fname(*f)),
+                                            format!(
+                                                "failed with {} but metadata changed: {:?} -> {:?}",
+                                                e.display, before, after
+                                            ),
+                                        ));
                                     }
                                     if e.kind == Kind::NotSupported {
                                         if (case.supports)(*f) {
-                                            vio.push(mk(format!("set_{}|not-supported-on-supporting-backend", fname(*f)), e.display.clone()));
+                                            vio.push(mk(
+                                                format!(
+                                                    "set_{}|not-supported-on-supporting-backend",
+                                                    fname(*f)
+                                                ),
+                                                e.display.clone(),
+                                            ));
                                         }
                                     } else if (case.supports)(*f) {
                                         vio.push(mk(format!("set_{}|refused|Err({})", fname(*f), e.kind.name()), format!("every layer supports setting {} and the entry exists, but the call failed: {}", fname(*f), e.display)));
@@ -196,7 +370,10 @@ pub fn run_c19(ctx: &Ctx) -> i32 {
                                     }
                                 }
                                 if am.len != 4 {
-                                    vio.push(mk("open-append-handle-len".into(), format!("len after the append {}", am.len)));
+                                    vio.push(mk(
+                                        "open-append-handle-len".into(),
+                                        format!("len after the append {}", am.len),
+                                    ));
                                 }
                             }
                             continue;
@@ -205,7 +382,13 @@ pub fn run_c19(ctx: &Ctx) -> i32 {
                         if !is_dir {
                             match PathApi::read_all(&p) {
                                 Ok(bytes) if bytes == b"abc" => {}
-                                other => vio.push(mk("setters-changed-bytes".into(), format!("content after the setters: {:?}", other.map_err(|e| e.display)))),
+                                other => vio.push(mk(
+                                    "setters-changed-bytes".into(),
+                                    format!(
+                                        "content after the setters: {:?}",
+                                        other.map_err(|e| e.display)
+                                    ),
+                                )),
                             }
                         }
                         // adapters report the timestamps of the entry they serve
@@ -213,11 +396,16 @@ pub fn run_c19(ctx: &Ctx) -> i32 {
                             let top = PathApi::metadata(&p);
                             let serving = b.bases.iter().find(|base| {
                                 let full = format!("{}/t", base.prefix);
-                                base.raw.join(&full[1..]).map(|x| x.exists().unwrap_or(false)).unwrap_or(false)
+                                base.raw
+                                    .join(&full[1..])
+                                    .map(|x| x.exists().unwrap_or(false))
+                                    .unwrap_or(false)
                             });
                             if let (Ok(top), Some(base)) = (top, serving) {
                                 let full = format!("{}/t", base.prefix);
-                                if let Ok(raw) = PathApi::metadata(&base.raw.join(&full[1..]).unwrap()) {
+                                if let Ok(raw) =
+                                    PathApi::metadata(&base.raw.join(&full[1..]).unwrap())
+                                {
                                     for g in FIELDS {
                                         if get(&top, g) != get(&raw, g) {
                                             vio.push(mk(format!("adapter-reports-other-{}", fname(g)), format!("the stack reports {} {:?}, the serving base {} reports {:?}", fname(g), get(&top, g), base.label, get(&raw, g))));
@@ -234,10 +422,19 @@ pub fn run_c19(ctx: &Ctx) -> i32 {
                                 if PathApi::append(&p, b"d").is_ok() {
                                     if let (Ok(bm), Ok(am)) = (&before, PathApi::metadata(&p)) {
                                         if case.mem_based && am.created != bm.created {
-                                            vio.push(mk("append-changed-created".into(), format!("append changed the creation time {:?} -> {:?}", bm.created, am.created)));
+                                            vio.push(mk(
+                                                "append-changed-created".into(),
+                                                format!(
+                                                    "append changed the creation time {:?} -> {:?}",
+                                                    bm.created, am.created
+                                                ),
+                                            ));
                                         }
                                         if am.len != 4 {
-                                            vio.push(mk("append-len".into(), format!("len after append {}", am.len)));
+                                            vio.push(mk(
+                                                "append-len".into(),
+                                                format!("len after append {}", am.len),
+                                            ));
                                         }
                                     }
                                 }
@@ -246,7 +443,10 @@ pub fn run_c19(ctx: &Ctx) -> i32 {
                                 if PathApi::write_file(&p, b"zz").is_ok() {
                                     if let Ok(am) = PathApi::metadata(&p) {
                                         if am.len != 2 {
-                                            vio.push(mk("overwrite-len".into(), format!("len after overwrite {}", am.len)));
+                                            vio.push(mk(
+                                                "overwrite-len".into(),
+                                                format!("len after overwrite {}", am.len),
+                                            ));
                                         }
                                     }
                                 }
@@ -255,7 +455,10 @@ pub fn run_c19(ctx: &Ctx) -> i32 {
                             Follow::Read => {
                                 if PathApi::read_all(&p).is_ok() {
                                     if let (Ok(bm), Ok(am)) = (&before, PathApi::metadata(&p)) {
-                                        if am.created != bm.created || am.modified != bm.modified || am.len != bm.len {
+                                        if am.created != bm.created
+                                            || am.modified != bm.modified
+                                            || am.len != bm.len
+                                        {
                                             vio.push(mk("read-changed-created-or-modified".into(), format!("reading the file changed created/modified/len: {:?} -> {:?}", bm, am)));
                                         }
                                     }
@@ -265,13 +468,19 @@ pub fn run_c19(ctx: &Ctx) -> i32 {
                                 let q = b.root.join("t2").unwrap();
                                 if p.copy_file(&q).is_ok() {
                                     if let (Ok(bm), Ok(am)) = (&before, PathApi::metadata(&p)) {
-                                        if am.created != bm.created || am.modified != bm.modified || am.len != bm.len {
+                                        if am.created != bm.created
+                                            || am.modified != bm.modified
+                                            || am.len != bm.len
+                                        {
                                             vio.push(mk("copy-changed-source".into(), format!("copy_file changed the source's created/modified/len: {:?} -> {:?}", bm, am)));
                                         }
                                     }
                                     match PathApi::read_all(&q) {
                                         Ok(x) if x == b"abc" => {}
-                                        other => vio.push(mk("copy-bytes".into(), format!("{:?}", other.map_err(|e| e.display)))),
+                                        other => vio.push(mk(
+                                            "copy-bytes".into(),
+                                            format!("{:?}", other.map_err(|e| e.display)),
+                                        )),
                                     }
                                 }
                             }
@@ -281,7 +490,13 @@ pub fn run_c19(ctx: &Ctx) -> i32 {
                 }
             }
         }
-        println!("  [{}] runs so far={} setter calls={} violations so far={}", case.label, runs, setter_calls, vio.len());
+        println!(
+            "  [{}] runs so far={} setter calls={} violations so far={}",
+            case.label,
+            runs,
+            setter_calls,
+            vio.len()
+        );
     }
     let vio = crate::handle::dedupe(vio);
     let mut counts = BTreeMap::new();
